@@ -168,8 +168,11 @@ class DatabaseService(Service, discriminator="database-service"):
         if db_file.deleted:
             # several deleted copies can carry the name (each restore leaves one behind): the last one deleted is the
             # one whose visible health the file showed most recently
-            folder = self.file_system.get_folder(folder_name="database", include_deleted=True)
-            copies = [f for f in folder.deleted_files.values() if f.name == db_file.name]
+            # the folder itself may have been deleted more than once: look through every folder of that name, oldest
+            # deleted first, the live one last
+            fs = self.file_system
+            folders = [f for f in list(fs.deleted_folders.values()) + list(fs.folders.values()) if f.name == "database"]
+            copies = [f for folder in folders for f in folder.deleted_files.values() if f.name == db_file.name]
             old_visible_state = (copies[-1] if copies else db_file).visible_health_status
         else:
             old_visible_state = self.db_file.visible_health_status
